@@ -13,7 +13,8 @@
     harness to the position of the row with that key (ORDER BY rowid); a NULL primary key in the input
     stays [VNull] in the observation when the file holds the expected auto-assigned key. *)
 From Coq Require Import ZArith NArith List Bool String.
-From Texel Require Import Prelude.Corr Gpkg.Model.
+From Texel Require Import Prelude.Corr.
+From Texel Require Export Gpkg.Model.
 Import ListNotations.
 Open Scope Z_scope.
 
